@@ -1,5 +1,383 @@
 //! Verification hook ops for module `style` (see mod.rs for the protocol).
+//!
+//! Canonical dump of an `ansi_term::Style`:  `<fg>:<bg>:<attrs>`
+//!   colour: `-` (None) | `b<n>` (Black..White = 0..7) | `f<n>` (Fixed) | `r<r>,<g>,<b>` (RGB)
+//!   attrs : 8 chars 0/1 in the order bold dimmed italic underline blink reverse hidden strike
+//! Canonical dump of a delta `Style`: `<ansi> <flags> <deco>`
+//!   flags : 4 chars 0/1 in the order emph omitted raw syntax
+//!   deco  : `none` | `<kind>/<ansi>` with kind in box ul ol ulol boxul boxol boxulol
+use super::{hex, hexb, num, unhex};
+use crate::ansi;
+use crate::color;
+use crate::features::hyperlinks;
+use crate::features::side_by_side;
+use crate::paint::Painter;
+use crate::style::{DecorationStyle, Style};
 
-pub fn handle(op: &str, _args: &[&str]) -> Result<String, String> {
-    Err(format!("unknown op: style.{op}"))
+fn dump_color(c: Option<ansi_term::Color>) -> String {
+    use ansi_term::Color::*;
+    match c {
+        None => "-".into(),
+        Some(Black) => "b0".into(),
+        Some(Red) => "b1".into(),
+        Some(Green) => "b2".into(),
+        Some(Yellow) => "b3".into(),
+        Some(Blue) => "b4".into(),
+        Some(Purple) => "b5".into(),
+        Some(Cyan) => "b6".into(),
+        Some(White) => "b7".into(),
+        Some(Fixed(n)) => format!("f{n}"),
+        Some(RGB(r, g, b)) => format!("r{r},{g},{b}"),
+    }
+}
+
+fn parse_color(f: &str) -> Result<Option<ansi_term::Color>, String> {
+    use ansi_term::Color::*;
+    let bad = || format!("bad colour field: {f}");
+    if f == "-" {
+        return Ok(None);
+    }
+    let (k, rest) = f.split_at(1);
+    Ok(Some(match k {
+        "b" => match rest.parse::<u8>().map_err(|_| bad())? {
+            0 => Black,
+            1 => Red,
+            2 => Green,
+            3 => Yellow,
+            4 => Blue,
+            5 => Purple,
+            6 => Cyan,
+            7 => White,
+            _ => return Err(bad()),
+        },
+        "f" => Fixed(rest.parse::<u8>().map_err(|_| bad())?),
+        "r" => {
+            let v: Vec<u8> = rest
+                .split(',')
+                .map(|x| x.parse::<u8>().map_err(|_| bad()))
+                .collect::<Result<_, _>>()?;
+            if v.len() != 3 {
+                return Err(bad());
+            }
+            RGB(v[0], v[1], v[2])
+        }
+        _ => return Err(bad()),
+    }))
+}
+
+fn bit(b: bool) -> char {
+    if b {
+        '1'
+    } else {
+        '0'
+    }
+}
+
+pub fn dump_ansi(s: &ansi_term::Style) -> String {
+    let attrs: String = [
+        s.is_bold,
+        s.is_dimmed,
+        s.is_italic,
+        s.is_underline,
+        s.is_blink,
+        s.is_reverse,
+        s.is_hidden,
+        s.is_strikethrough,
+    ]
+    .iter()
+    .map(|b| bit(*b))
+    .collect();
+    format!(
+        "{}:{}:{}",
+        dump_color(s.foreground),
+        dump_color(s.background),
+        attrs
+    )
+}
+
+pub fn parse_ansi(f: &str) -> Result<ansi_term::Style, String> {
+    let parts: Vec<&str> = f.split(':').collect();
+    if parts.len() != 3 || parts[2].len() != 8 {
+        return Err(format!("bad ansi style field: {f}"));
+    }
+    let a: Vec<bool> = parts[2].chars().map(|c| c == '1').collect();
+    Ok(ansi_term::Style {
+        foreground: parse_color(parts[0])?,
+        background: parse_color(parts[1])?,
+        is_bold: a[0],
+        is_dimmed: a[1],
+        is_italic: a[2],
+        is_underline: a[3],
+        is_blink: a[4],
+        is_reverse: a[5],
+        is_hidden: a[6],
+        is_strikethrough: a[7],
+    })
+}
+
+fn dump_deco(d: &DecorationStyle) -> String {
+    use DecorationStyle::*;
+    match d {
+        NoDecoration => "none".into(),
+        Box(s) => format!("box/{}", dump_ansi(s)),
+        Underline(s) => format!("ul/{}", dump_ansi(s)),
+        Overline(s) => format!("ol/{}", dump_ansi(s)),
+        UnderOverline(s) => format!("ulol/{}", dump_ansi(s)),
+        BoxWithUnderline(s) => format!("boxul/{}", dump_ansi(s)),
+        BoxWithOverline(s) => format!("boxol/{}", dump_ansi(s)),
+        BoxWithUnderOverline(s) => format!("boxulol/{}", dump_ansi(s)),
+    }
+}
+
+fn parse_deco(f: &str) -> Result<DecorationStyle, String> {
+    use DecorationStyle::*;
+    if f == "none" {
+        return Ok(NoDecoration);
+    }
+    let (k, a) = f
+        .split_once('/')
+        .ok_or_else(|| format!("bad deco field: {f}"))?;
+    let s = parse_ansi(a)?;
+    Ok(match k {
+        "box" => Box(s),
+        "ul" => Underline(s),
+        "ol" => Overline(s),
+        "ulol" => UnderOverline(s),
+        "boxul" => BoxWithUnderline(s),
+        "boxol" => BoxWithOverline(s),
+        "boxulol" => BoxWithUnderOverline(s),
+        _ => return Err(format!("bad deco kind: {k}")),
+    })
+}
+
+pub fn dump_style(s: &Style) -> String {
+    format!(
+        "{} {}{}{}{} {}",
+        dump_ansi(&s.ansi_term_style),
+        bit(s.is_emph),
+        bit(s.is_omitted),
+        bit(s.is_raw),
+        bit(s.is_syntax_highlighted),
+        dump_deco(&s.decoration_style)
+    )
+}
+
+/// A delta Style from three fields `<ansi> <flags> <deco>`.
+pub fn parse_style(a: &str, flags: &str, deco: &str) -> Result<Style, String> {
+    if flags.len() != 4 {
+        return Err(format!("bad flags field: {flags}"));
+    }
+    let fl: Vec<bool> = flags.chars().map(|c| c == '1').collect();
+    Ok(Style {
+        ansi_term_style: parse_ansi(a)?,
+        is_emph: fl[0],
+        is_omitted: fl[1],
+        is_raw: fl[2],
+        is_syntax_highlighted: fl[3],
+        decoration_style: parse_deco(deco)?,
+    })
+}
+
+/// `-` or `<ansi>/<flags>` (decoration of a default is never consulted by the parser).
+fn parse_default(f: &str) -> Result<Option<Style>, String> {
+    if f == "-" {
+        return Ok(None);
+    }
+    let (a, fl) = f
+        .rsplit_once('/')
+        .ok_or_else(|| format!("bad default field: {f}"))?;
+    Ok(Some(parse_style(a, fl, "none")?))
+}
+
+fn flag(f: &str) -> Result<bool, String> {
+    match f {
+        "0" => Ok(false),
+        "1" => Ok(true),
+        _ => Err(format!("bad flag: {f}")),
+    }
+}
+
+pub fn handle(op: &str, args: &[&str]) -> Result<String, String> {
+    match (op, args) {
+        // style.parse <kind> <default> <true_color> <style string> <decoration string | ->
+        //   kind: plain   = Style::from_str
+        //         special = Style::from_str_with_handling_of_special_decoration_attributes
+        //         deco    = DecorationStyle::from_str(<style string>)
+        // A fatal error terminates the process with status 2 (reported by the harness as DIED 2).
+        ("parse", [kind, default, tc, s, deco]) => {
+            let default = parse_default(default)?;
+            let tc = flag(tc)?;
+            let s = unhex(s)?;
+            let deco_s = if *deco == "-" {
+                None
+            } else {
+                Some(unhex(deco)?)
+            };
+            match *kind {
+                "plain" => Ok(format!(
+                    "ok {}",
+                    dump_style(&Style::from_str(&s, default, deco_s.as_deref(), tc, None))
+                )),
+                "special" => Ok(format!(
+                    "ok {}",
+                    dump_style(
+                        &Style::from_str_with_handling_of_special_decoration_attributes(
+                            &s,
+                            default,
+                            deco_s.as_deref(),
+                            tc,
+                            None
+                        )
+                    )
+                )),
+                "deco" => Ok(format!(
+                    "ok {}",
+                    dump_deco(&DecorationStyle::from_str(&s, tc, None))
+                )),
+                _ => Err(format!("bad kind: {kind}")),
+            }
+        }
+        // style.color <true_color> <word>  -> colour dump (color::parse_color)
+        ("color", [tc, w]) => Ok(format!(
+            "ok {}",
+            dump_color(color::parse_color(&unhex(w)?, flag(tc)?, None))
+        )),
+        // style.ansi256 <r> <g> <b>  -> ansi_colours::ansi256_from_rgb (the oracle of the model)
+        ("ansi256", [r, g, b]) => {
+            let c = |f: &str| f.parse::<u8>().map_err(|e| e.to_string());
+            Ok(format!(
+                "ok {}",
+                ansi_colours::ansi256_from_rgb((c(r)?, c(g)?, c(b)?))
+            ))
+        }
+        // style.display <ansi> <flags> <deco>  -> `Display for Style`
+        ("display", [a, fl, d]) => Ok(format!("ok {}", hex(&parse_style(a, fl, d)?.to_string()))),
+        // style.paint <ansi> <text>  -> bytes of Style::paint(text).to_string()
+        ("paint", [a, text]) => {
+            let st = Style {
+                ansi_term_style: parse_ansi(a)?,
+                ..Style::new()
+            };
+            Ok(format!("ok {}", hex(&st.paint(unhex(text)?).to_string())))
+        }
+        // style.paint_strings <n> (<ansi> <text>)*  -> ansi_term::ANSIStrings(..).to_string()
+        ("paint_strings", [n, rest @ ..]) => {
+            let n = num(n)?;
+            if rest.len() != 2 * n {
+                return Err("paint_strings: arity".into());
+            }
+            let mut v = Vec::new();
+            for i in 0..n {
+                v.push(parse_ansi(rest[2 * i])?.paint(unhex(rest[2 * i + 1])?));
+            }
+            Ok(format!(
+                "ok {}",
+                hex(&ansi_term::ANSIStrings(&v).to_string())
+            ))
+        }
+        // style.right_fill <line> <ansi>  -> Painter::right_fill_background_color
+        ("right_fill", [line, a]) => {
+            let mut line = unhex(line)?;
+            let st = Style {
+                ansi_term_style: parse_ansi(a)?,
+                ..Style::new()
+            };
+            Painter::right_fill_background_color(&mut line, st);
+            Ok(format!("ok {}", hex(&line)))
+        }
+        // style.mark_empty <line> <ansi> <marker | ->  -> Painter::mark_empty_line
+        ("mark_empty", [line, a, marker]) => {
+            let mut line = unhex(line)?;
+            let st = Style {
+                ansi_term_style: parse_ansi(a)?,
+                ..Style::new()
+            };
+            let m = if *marker == "-" {
+                None
+            } else {
+                Some(unhex(marker)?)
+            };
+            Painter::mark_empty_line(&st, &mut line, m.as_deref());
+            Ok(format!("ok {}", hex(&line)))
+        }
+        // style.truncate <width> <tail> <n> (<t|e> <string>)*
+        //   The line is the concatenation of the items; -> `ok <truncate_str result> <measured width of input>`
+        ("truncate", [w, tail, n, rest @ ..]) => {
+            let n = num(n)?;
+            if rest.len() != 2 * n {
+                return Err("truncate: arity".into());
+            }
+            let mut s = String::new();
+            for i in 0..n {
+                s.push_str(&unhex(rest[2 * i + 1])?);
+            }
+            let out = ansi::truncate_str(&s, num(w)?, &unhex(tail)?).to_string();
+            Ok(format!("ok {} {}", hex(&out), ansi::measure_text_width(&s)))
+        }
+        // style.link <url> <text>  -> hyperlinks::format_osc8_hyperlink
+        ("link", [url, text]) => Ok(format!(
+            "ok {}",
+            hex(&hyperlinks::verif_format_osc8_hyperlink(
+                &unhex(url)?,
+                &unhex(text)?
+            ))
+        )),
+        // style.pad_panel <line> <is_empty> <has_index> <state m|p|z> <side l|r> <fill ansi|spaces|no>
+        //   (current cfg)  -> `ok <padded line> <mode none|ansi|spaces> <fill ansi style> <panel width>`
+        ("pad_panel", [line, is_empty, has_index, state, side, fill]) => {
+            let (out, mode, st, pw) = side_by_side::verif_pad_panel_line_to_width(
+                &unhex(line)?,
+                flag(is_empty)?,
+                flag(has_index)?,
+                state,
+                side,
+                fill,
+                super::config(),
+            )?;
+            Ok(format!(
+                "ok {} {} {} {}",
+                hex(&out),
+                mode,
+                dump_ansi(&st.ansi_term_style),
+                pw
+            ))
+        }
+        // style.config_style <option name>  -> dump of that style in the current Config
+        ("config_style", [name]) => {
+            use crate::features::side_by_side::{Left, Right};
+            use crate::minusplus::{Minus, Plus};
+            let c = super::config();
+            let st = match *name {
+                "minus-style" => c.minus_style,
+                "minus-emph-style" => c.minus_emph_style,
+                "minus-non-emph-style" => c.minus_non_emph_style,
+                "minus-empty-line-marker-style" => c.minus_empty_line_marker_style,
+                "zero-style" => c.zero_style,
+                "plus-style" => c.plus_style,
+                "plus-emph-style" => c.plus_emph_style,
+                "plus-non-emph-style" => c.plus_non_emph_style,
+                "plus-empty-line-marker-style" => c.plus_empty_line_marker_style,
+                "whitespace-error-style" => c.whitespace_error_style,
+                "commit-style" => c.commit_style,
+                "file-style" => c.file_style,
+                "hunk-header-style" => c.hunk_header_style,
+                "hunk-header-file-style" => c.hunk_header_file_style,
+                "hunk-header-line-number-style" => c.hunk_header_line_number_style,
+                "line-numbers-minus-style" => c.line_numbers_style_minusplus[Minus],
+                "line-numbers-plus-style" => c.line_numbers_style_minusplus[Plus],
+                "line-numbers-zero-style" => c.line_numbers_zero_style,
+                "line-numbers-left-style" => c.line_numbers_style_leftright[Left],
+                "line-numbers-right-style" => c.line_numbers_style_leftright[Right],
+                "grep-file-style" => c.grep_file_style,
+                "grep-line-number-style" => c.grep_line_number_style,
+                "inline-hint-style" => c.inline_hint_style,
+                _ => return Err(format!("unknown style option: {name}")),
+            };
+            Ok(format!("ok {} {}", dump_style(&st), bit(c.true_color)))
+        }
+        _ => {
+            let _ = hexb;
+            Err(format!("unknown op or arity: style.{op}"))
+        }
+    }
 }
